@@ -44,12 +44,12 @@ WORKER_TIMEOUT = {"quick": 600, "thorough": 3600}
 
 def gen_cases(tier, seed):
     rnd = random.Random(f"C09:{seed}")
-    bound = 8 if tier == "quick" else 12
+    bound = 10 if tier == "quick" else 13
     cases = []
     for grid in itertools.product(range(1, bound + 1), repeat=3):
         cases.append({"kind": "grid", "grid": list(grid), "chunk": rnd.choice([1, 2, 3, 8, 64]),
                       "rem": [rnd.random() for _ in range(3)], "mode": "all"})
-    n_big = 150 if tier == "quick" else 2000
+    n_big = 400 if tier == "quick" else 3000
     for _ in range(n_big):
         grid = []
         for _a in range(3):
